@@ -199,6 +199,13 @@ pub fn now_secs() -> u64 {
 /// expressions in the library are evaluated (they are part of the glue).
 pub fn install_trace_sink() {
     use tracing_subscriber::fmt::MakeWriter;
+    // debugging aid: VERIF_TRACE_FILE=<path> writes the library's DEBUG log there instead of discarding it
+    if let Ok(p) = std::env::var("VERIF_TRACE_FILE") {
+        if let Ok(f) = std::fs::File::create(&p) {
+            let _ = tracing_subscriber::fmt().with_max_level(tracing::Level::DEBUG).with_ansi(false).with_writer(std::sync::Mutex::new(f)).try_init();
+            return;
+        }
+    }
     struct Sink;
     impl std::io::Write for Sink {
         fn write(&mut self, b: &[u8]) -> std::io::Result<usize> { Ok(b.len()) }
